@@ -86,10 +86,14 @@ func (e *Engine) harnessExtra(fn *ssa.Function, name string, args []Value) (Valu
 	return e.sigHarnessExtra(fn, name, args)
 }
 
-func (e *Engine) invokeIntrinsic(recv IfaceVal, name string, args []Value) (Value, bool) {
+func (e *Engine) invokeIntrinsic(recv IfaceVal, method *types.Func, args []Value) (Value, bool) {
+	name := method.Name()
 	p, ok := recv.val.(PtrVal)
 	if !ok || p.slot == nil || recv.typ != e.sh.marks.opaque {
 		return nil, false
+	}
+	if v, ok := e.sigInvoke(*p.slot, recv, method, args); ok {
+		return v, true
 	}
 	switch obj := (*p.slot).(type) {
 	case *AbsKey:
